@@ -12,6 +12,7 @@ type IdealCoefficientSatisfactionLevels struct {
 	MaxValue             float64 `json:"maxValue"`
 	MinValue             float64 `json:"minValue"`
 	currentValue         float64
+	exhausted            bool
 	criteria             model.Criteria
 	criteriaValuesRanges []utils.ValueRange
 	manager              CoefficientManager
@@ -36,7 +37,7 @@ func (s *IdealCoefficientSatisfactionLevels) Initialize(dmp *model.DecisionMakin
 }
 
 func (s *IdealCoefficientSatisfactionLevels) HasNext() bool {
-	return s.manager.HasNext(s)
+	return !s.exhausted && s.manager.HasNext(s)
 }
 
 func (s *IdealCoefficientSatisfactionLevels) Next() model.Weights {
@@ -50,7 +51,10 @@ func (s *IdealCoefficientSatisfactionLevels) Next() model.Weights {
 			weights[c.Id] = valRange.Max - delta
 		}
 	}
-	s.currentValue = s.manager.UpdateValue(s.currentValue, s.Coefficient)
+	nextValue := s.manager.UpdateValue(s.currentValue, s.Coefficient)
+	// a step below the resolution of float64 would repeat the same level for ever: the series ends there
+	s.exhausted = nextValue == s.currentValue
+	s.currentValue = nextValue
 	return weights
 }
 
